@@ -411,7 +411,9 @@ def date(year, month_, day):
         if result <= 60:
             result -= 1
     except ValueError:
-        assert (year, month_, day) == LEAP_1900_TUPLE
+        if (year, month_, day) != LEAP_1900_TUPLE:
+            # carried past the last legal date (9999-12-31)
+            return NUM_ERROR
         result = 60.0
 
     if result < 0:
